@@ -1,5 +1,8 @@
 """C10 -- element transforms are the documented affine maps."""
-LEVEL = 'proof'
+# overall level: the quick tier contains three BOUNDED groups (rpath_simple_scale, fpath_transform_11,
+# fpath_scale_11), and a bounded stand-in is never counted as proved, so the property as a whole is reported as
+# model_checking; evidence.coverage.by_kind / proved_unbounded say which obligations are unbounded proofs.
+LEVEL = 'model_checking'
 
 
 def P(name, fn, entry, **kw):
